@@ -166,6 +166,10 @@ def run(w: World, rep: Report):
     depend(rep, w, 'rules_c09', ('C09.R2', 'C09.R3'), 'C16.TD9',
            'the clock thresholds (flags) configured for a run hold inside DEF/CALL, IF, TRY and LOOP bodies too - the time '
            'checks of these locks run inside such bodies (C09.R2/R3 re-evaluated)', floor=16)
+    depend(rep, w, 'rules_c08', ('C08.R1',), 'C16.TD8',
+           'the execution timestamp t the instructions compare is the embedder\'s: no code between the entry points and the '
+           'handlers stores under a str key of the run cache, so a supplied `timestamp` (0 included) is never replaced '
+           '(C08.R1 re-evaluated)', floor=18)
     rep.explanation = (
         'The property touches its values only through comparisons, so the set of orderings is finite: the '
         'if/elif/else formula of each instruction is extracted from the CFG (locals substituted by their '
